@@ -1,3 +1,6 @@
+#include <algorithm>
+#include <climits>
+
 #include "VM/include/program.hpp"
 #include "VM/include/vm.hpp"
 
@@ -112,10 +115,10 @@ bool VM::executeSingle() {
       // i.parameters.add.source << " + " << i.parameters.add.constant <<
       // std::endl;
       WordIndex base = this->stack.back().data_start;
-      this->data[base + i.parameters.add.target] =
-          std::max(this->data[base + i.parameters.add.source] +
-                       i.parameters.add.constant,
-                   0);
+      this->data[base + i.parameters.add.target] = (Word)std::clamp(
+          (long long)this->data[base + i.parameters.add.source] +
+              (long long)i.parameters.add.constant,
+          0LL, (long long)INT_MAX);
       this->instruction_pointer++;
       break;
     }
